@@ -114,6 +114,8 @@ MismatchPDU(fc, b, p) == <<fc, b>> \o Pat("ramp", p)
 MismatchBP(z) == { bp \in (IF Thorough THEN 0..255 ELSE {0, 1, 2, 3, 4, 6, 100, 250, 255})
                         \X {0, 1, 2, 3, 4, 5, 6, 8, 98, 99, 100, 101, 102, 248, 249, 250} :
                   bp[1] # bp[2] /\ (bp[1] - bp[2] \in -2..2 \/ bp[2] \in {0, 250} \/ bp[1] \in {0, 255}) }
+              \* payloads longer than the count by a multiple of 256 (a length compared in 8 bits would agree)
+              \cup {<<1, 257>>, <<2, 258>>, <<4, 260>>, <<250, 506>>, <<3, 515>>, <<0, 256>>}
 IdLenP(z) == { ip \in {1, 2, 5, 255} \X {0, 1, 2, 4, 5} : ip[1] + 1 > ip[2] }
 C02Mismatch(z) ==
     UNION {{PR(e, fr, IF fr = "tcp" THEN TCPADU(7, 1, MismatchPDU(fc, bp[1], bp[2])) ELSE RTUADU(1, MismatchPDU(fc, bp[1], bp[2])), "mismatch")
